@@ -6,7 +6,7 @@ import sys
 
 from rtc import cues_common
 
-PER_SCOPE = {"full": 22, "multi": 22, "noregion": 12, "plain": 14, "styled": 14, "regions": 14, "ruby": 14, "subms": 12}
+PER_SCOPE = {"full": 30, "multi": 30, "noregion": 16, "plain": 20, "styled": 24, "regions": 24, "ruby": 16, "subms": 20}
 
 if __name__ == "__main__":
   sys.exit(cues_common.main("C06", PER_SCOPE))
